@@ -108,9 +108,13 @@ impl IndexManager {
                     && IndexManager::unlisted_same(schema, affected, *old_row, *new_row)
                     ==> final(self).synced(schema, rows.update(row_index as int, *new_row)) && IndexManager::dupfree(schema, rows.update(row_index as int, *new_row))
     { unimplemented!() }
-    /// removes the row's keys; positions of later rows are NOT adjusted: nothing is promised about `synced` (a rebuild is needed)
+    /// removes the row's keys; positions of later rows are NOT adjusted: in general nothing is promised about `synced` (a rebuild is needed) -
+    /// except when the row is the LAST one of a duplicate-free table: then no position shifts   (K-index update_for_delete: TAKING THE LAST ROW OUT KEEPS THE MIRROR)
     #[verifier::external_body]
-    pub fn update_for_delete(&mut self, schema: &TableSchema, row: &Row) { unimplemented!() }
+    pub fn update_for_delete(&mut self, schema: &TableSchema, row: &Row)
+        ensures forall|rows: Seq<Row>| #![trigger old(self).synced(schema, rows)] old(self).synced(schema, rows) && rows.len() >= 1 && rows[rows.len() - 1] == *row
+                    && IndexManager::dupfree(schema, rows) ==> final(self).synced(schema, rows.drop_last())
+    { unimplemented!() }
 }
 /// the two rows agree on every column outside the set (what "changed columns" means; established by the UPDATE executor, unit D-set side)
 pub uninterp spec fn differ_only_in(changed: &ColSet, a: Row, b: Row) -> bool;
@@ -272,7 +276,7 @@ ITEMS = {
         ('re', r'self\.rows\.iter\(\)\.position\(\|row\| row == target_row\)', 'position_of(&self.rows, target_row)', None),
         # an equality predicate closure handed to delete_where (R: FnMut parameter -> abstract pure predicate)
         ('re', r'\|row\| row == (\w+)', r'&RowPred::eq_to(\1)', None)],
-        proofs=[('@entry', 'let ghost rows0__ = self.rows@;'), ('after:self.rows.remove(pos);', 'proof { fact_remove_keeps_dupfree(&self.schema, rows0__, pos as int); }')],
+        proofs=[('@entry', 'let ghost rows0__ = self.rows@;'), ('after:self.rows.remove(pos);', 'proof { fact_remove_keeps_dupfree(&self.schema, rows0__, pos as int); if pos as int == rows0__.len() - 1 { assert(rows0__.remove(pos as int) =~= rows0__.drop_last()); } }')],
         contract='''
         requires old(self).wf()
         ensures final(self).wf(),
@@ -301,6 +305,7 @@ CANARIES = ['canary_delete', 'canary_update', 'canary_insert']
 TRUSTED = [
     'external_body IndexManager (new, rebuild, clear, update_for_insert, update_for_update, update_selective, get_affected_indexes, update_for_delete): ASSUMED contracts over the uninterpreted predicates synced / dupfree / fresh / covers / unlisted_same; each clause is a postcondition PROVED of the real function in unit K-index (synced = synced_n over all rows, dupfree = all_dupfree, fresh = all_fresh, covers, unlisted_same) - the correspondence between the two units is clause by clause, by reading, not by a shared definition (Row and TableSchema are opaque here, reduced there)',
     'external_body proof fns fact_covers_unlisted_same, fact_remove_keeps_dupfree, fact_empty_dupfree: facts about the uninterpreted predicates, PROVED over their definitions in unit K-index (lemma_covers_unlisted_same, lemma_all_remove_dupfree, lemma_all_empty_dupfree)',
+    'update_for_delete: assumed to keep `synced` only for the LAST row of a duplicate-free table (K-index: TAKING THE LAST ROW OUT KEEPS THE MIRROR) - so a removal that skips the rebuild for the last row verifies, one that skips it for any other row does not (seed C15-3); the K-index clause carries the bound rows.len() <= usize::MAX, true of every Vec, which this unit cannot state for a row vector whose length it never reads',
     'fresh(schema, rows, i, stored row) - the keys of the row about to be stored are held by no other row - is a PREMISE of the write contracts, established by the PRIMARY KEY / UNIQUE checks of the executors (C10), not here; differ_only_in(changed_columns, old, new) - the set holds every column that differs - is a premise of update_row_selective, established by the UPDATE executor, not under contract',
     'external_body Row (clone is a copy), TableSchema (get_primary_key_indices), AppendModeTracker::reset / update, TableStatistics (row_count + the opaque StatsRest; mark_stale), RowNormalizer (normalize_and_validate: the uninterpreted stored_form of the row, or an error), SqlValue, project_pk (the key projection feeding the append-mode tracker), ColSet / IndexTypes (HashSet<usize>, Vec<IndexType>): opaque',
     'external_body RowPred::call / eq_to: the FnMut(&Row) -> bool parameter of delete_where as a pure function of the row; `|row| row == target` as its equality instance',
